@@ -1,21 +1,28 @@
 #!/bin/sh
-# Re-applies every seeded change to /repo in turn and runs the check of its property (and, for the
-# few that are caught by a sibling check, that one): prints one line per change. /repo is restored
-# after each. Usage: ./regress_seeded.sh [pattern]
+# Re-applies every seeded change in turn to a scratch checkout of /repo's HEAD (a git worktree
+# outside /repo and /verif, removed at the end; /repo itself is not touched) and runs the check of
+# its property against that checkout (VERIF_REPO): one line per change.
+# Usage: ./regress_seeded.sh [pattern]
 cd /verif || exit 2
+[ -x bin/vcheck ] && [ -x bin/vrewrite ] || ./setup.sh >/dev/null 2>&1 || exit 2
+W=${TMPDIR:-/tmp}/verif_regress_repo.$$
+git -C /repo worktree add --detach -q $W HEAD || exit 2
+trap 'git -C /repo worktree remove --force $W 2>/dev/null; git -C /repo worktree prune' EXIT INT TERM
 for d in seeded/${1:-*}/; do
   n=$(basename $d); p=$d/patch.diff
   [ -f $p ] || continue
   prop=$(echo $n | cut -d- -f1)
   chk=$prop
   case $n in C04-r2-m2) chk=C17;; C09-r2-m1) chk=C09;; C01-r2-m2) chk=C05;; esac
-  if git -C /repo apply --check /verif/$p 2>/dev/null; then git -C /repo apply /verif/$p
-  elif git -C /repo apply --3way /verif/$p >/dev/null 2>&1; then :
-  else echo "$n: patch does not apply to the current tree"; git -C /repo checkout -q -- . ; git -C /repo reset -q --hard HEAD; continue; fi
-  runs=$(python3 -c "import json;print(json.load(open('/verif/checks.json'))['$chk']['quick']['runs']*3)")
-  out=$(bin/vcheck run -prop $chk -runs $runs -noevidence -noshrink 2>&1)
-  git -C /repo reset -q --hard HEAD
+  if git -C $W apply --check /verif/$p 2>/dev/null; then git -C $W apply /verif/$p
+  elif git -C $W apply --3way /verif/$p >/dev/null 2>&1; then :
+  else echo "$n: patch does not apply to the current tree"; git -C $W reset -q --hard HEAD; continue; fi
+  runs=$(python3 -c "import json;print(json.load(open('/verif/checks.json'))['$chk']['quick']['runs']*${REGRESS_FACTOR:-3})")
+  # mutants of the queue that hang every run would take a watchdog period each: fewer runs there
+  case $n in C15-r2-m1|C15-r2-m4) runs=1500;; esac
+  out=$(VERIF_REPO=$W bin/vcheck run -prop $chk -runs $runs -noevidence -noshrink 2>&1)
+  git -C $W reset -q --hard HEAD
   sigs=$(echo "$out" | grep 'signature:' | sed 's/.*signature: //' | sort -u | head -3 | tr '\n' ';')
-  echo "$n [$chk]: $(echo "$out" | grep -c '^VIOLATION') ${sigs:-NOT DETECTED} $(echo "$out" | grep -i 'HARNESS\|BUILD FAILED' | head -1)"
+  echo "$n [$chk]: $(echo "$out" | grep -c '^VIOLATION') ${sigs:-NOT DETECTED} $(echo "$out" | grep -i 'BUILD FAILED' | head -1)"
 done
 find /verif/replays -type f -name '[0-9]*' -delete 2>/dev/null
